@@ -15,6 +15,7 @@ import (
 
 	"verifharness/dev"
 	"verifharness/hx"
+	"verifharness/indep"
 	"verifharness/mk"
 )
 
@@ -212,6 +213,71 @@ func execC19Fin(f *finCase, r *hx.Result) {
 			r.Nontrivial = r.Nontrivial || e.Mtime > 2147483647
 			if g.mtime.Unix() != e.Mtime {
 				r.Fail("mtime:"+f.FS, "%q: modification time %v in the image, %v on the workspace file", clip(e.Path), g.mtime.UTC(), time.Unix(e.Mtime, 0).UTC())
+				return
+			}
+		}
+	}	// the same attributes as an independent reader of the format sees them (what is stored, not what the
+	// library's reader makes of it): squashfs inode header fields, Rock Ridge PX / TF / SL fields
+	type raw struct {
+		mode  uint32
+		uid   uint32
+		gid   uint32
+		mtime int64
+		hasT  bool
+		tgt   string
+		link  bool
+		dir   bool
+	}
+	rawOf := map[string]raw{}
+	if f.FS == "squashfs" {
+		img, ierr := indep.ReadSquashfs(d, 0, f.Size)
+		if ierr != nil {
+			r.Fail("indep-read", "the squashfs image cannot be read by an independent reader: %v", ierr)
+			return
+		}
+		for p, n := range img.Nodes {
+			rawOf[p] = raw{mode: uint32(n.Mode), uid: n.UID, gid: n.GID, mtime: int64(n.MTime), hasT: true, tgt: n.Target, link: n.Kind == 'l', dir: n.Kind == 'd'}
+		}
+	} else if f.Iso.RockRidge && f.BS == 2048 {
+		rep := indep.WalkISO(d, 0, f.Size)
+		for _, x := range rep.RRFiles {
+			if !x.RR.HasPX {
+				continue
+			}
+			rawOf[x.Path] = raw{mode: x.RR.Mode & 0o7777, uid: x.RR.UID, gid: x.RR.GID, mtime: x.RR.MTime, hasT: x.RR.HasMTime, tgt: x.RR.Link, link: x.RR.IsLink, dir: x.Dir}
+		}
+	} else {
+		return
+	}
+	for _, e := range f.Tree {
+		g, ok := rawOf[e.Path]
+		if !ok {
+			r.Fail("indep-missing", "%q is not found by an independent reader of the %s image", clip(e.Path), f.FS)
+			return
+		}
+		if g.dir != (e.Kind == mk.KDir) || g.link != (e.Kind == mk.KLink) {
+			r.Fail("kind-confused", "%q: source kind %d, stored as dir=%v symlink=%v (independent reader)", clip(e.Path), e.Kind, g.dir, g.link)
+			return
+		}
+		if e.Kind == mk.KLink && g.tgt != e.Target {
+			r.Fail("link-target", "%q: stored link target %q (independent reader), source %q", clip(e.Path), clip(g.tgt), clip(e.Target))
+			return
+		}
+		if e.Mode != 0 && e.Kind != mk.KLink && g.mode&0o7777 != e.Mode {
+			r.Fail("mode:"+f.FS, "%q: stored mode bits %04o (independent reader), %04o on the workspace file", clip(e.Path), g.mode&0o7777, e.Mode)
+			return
+		}
+		if (e.UID != 0 || e.GID != 0) && (g.uid != uint32(e.UID) || g.gid != uint32(e.GID)) {
+			r.Fail("owner:"+f.FS, "%q: stored uid/gid %d/%d (independent reader), %d/%d on the workspace file", clip(e.Path), g.uid, g.gid, e.UID, e.GID)
+			return
+		}
+		if e.Mtime != 0 && e.Kind != mk.KLink && g.hasT {
+			wantT := e.Mtime
+			if f.FS == "squashfs" {
+				wantT = int64(uint32(e.Mtime)) // 32-bit seconds
+			}
+			if g.mtime != wantT {
+				r.Fail("mtime:"+f.FS, "%q: stored modification time %d (independent reader), %d on the workspace file", clip(e.Path), g.mtime, wantT)
 				return
 			}
 		}
